@@ -26,6 +26,9 @@ def u64 (x : Int) : Int := x % 18446744073709551616
 /-- `a[i]`: panics unless 0 ≤ i < len a -/
 def idx (l : List Int) (i : Int) : Option Int := if 0 ≤ i then l[i.toNat]? else none
 
+/-- `a[i]` on a slice of structures -/
+def idxA {α : Type} (l : List α) (i : Int) : Option α := if 0 ≤ i then l[i.toNat]? else none
+
 /-- `a / b` with a divisor that is not a non-zero constant: integer division by zero panics -/
 def quo (a b : Int) : Option Int := if b = 0 then none else some (Int.tdiv a b)
 /-- `a % b`, same -/
